@@ -367,6 +367,226 @@ theorem isolation_general (key : List Msg → K)
 
 end
 
+/-! ### turn-by-turn conversations are `Compatible` -/
+
+section
+variable {K : Type} [DecidableEq K] {Ev : Type}
+
+/-- steps of a sequential run without conversation tags -/
+def runS (key : List Msg → K) (conv : Bool → Msg → List Ev) (turn : List Ev → Msg × List Ev) :
+    Cache K Ev → List (List Msg) → List (Step Ev)
+  | _, [] => []
+  | C, r :: rs =>
+    let st := serveStep key conv turn C r
+    st :: runS key conv turn (entry key st :: C) rs
+
+theorem runT_steps (key : List Msg → K) (conv : Bool → Msg → List Ev) (turn : List Ev → Msg × List Ev) :
+    ∀ (s : List (Nat × List Msg)) (C : Cache K Ev),
+      (runT key conv turn C s).map (·.2) = runS key conv turn C (s.map (·.2)) := by
+  intro s
+  induction s with
+  | nil => intro C; rfl
+  | cons x s ih => intro C; obtain ⟨c, r⟩ := x; simp [runT, runS, ih]
+
+theorem runS_reqs (key : List Msg → K) (conv : Bool → Msg → List Ev) (turn : List Ev → Msg × List Ev) :
+    ∀ (R : List (List Msg)) (C : Cache K Ev), (runS key conv turn C R).map (·.req) = R := by
+  intro R
+  induction R with
+  | nil => intro C; rfl
+  | cons r R ih => intro C; simp [runS, ih, serveStep]
+
+theorem runS_take (key : List Msg → K) (conv : Bool → Msg → List Ev) (turn : List Ev → Msg × List Ev) :
+    ∀ (R : List (List Msg)) (C : Cache K Ev) (n : Nat),
+      (runS key conv turn C R).take n = runS key conv turn C (R.take n) := by
+  intro R
+  induction R with
+  | nil => intro C n; simp [runS]
+  | cons r R ih =>
+    intro C n
+    cases n with
+    | zero => simp [runS]
+    | succ n => simp [runS, ih]
+
+/-- turn-by-turn conversation: every request is the previous request + the previous reply + one new message
+    (`h` = the history before the first step; `[]` for a whole conversation) -/
+def ChainedFrom : List Msg → List (Step Ev) → Prop
+  | _, [] => True
+  | h, x :: r => (∃ m, x.req = h ++ [m]) ∧ ChainedFrom x.hist r
+
+theorem chained_req_length : ∀ (pre : List (Step Ev)) (h : List Msg) (x : Step Ev) (post : List (Step Ev)),
+    ChainedFrom h (pre ++ x :: post) → x.req.length = h.length + 2 * pre.length + 1 := by
+  intro pre
+  induction pre with
+  | nil =>
+    intro h x post hc
+    obtain ⟨⟨m, hm⟩, _⟩ := hc
+    simp [hm]
+  | cons y pre ih =>
+    intro h x post hc
+    obtain ⟨⟨m, hm⟩, hc'⟩ := hc
+    have := ih y.hist x post hc'
+    simp [Step.hist, hm] at this
+    simp
+    omega
+
+theorem chained_prefix : ∀ (pre : List (Step Ev)) (h : List Msg) (x : Step Ev) (post : List (Step Ev)),
+    ChainedFrom h (pre ++ x :: post) → h <+: x.req ∧ ∀ x0 ∈ pre, x0.hist <+: x.req := by
+  intro pre
+  induction pre with
+  | nil =>
+    intro h x post hc
+    obtain ⟨⟨m, hm⟩, _⟩ := hc
+    exact ⟨⟨[m], hm.symm⟩, fun _ h0 => by simp at h0⟩
+  | cons y pre ih =>
+    intro h x post hc
+    obtain ⟨⟨m, hm⟩, hc'⟩ := hc
+    obtain ⟨i1, i2⟩ := ih y.hist x post hc'
+    have hy : h <+: y.hist := ⟨[m, y.reply], by simp [Step.hist, hm]⟩
+    refine ⟨hy.trans i1, ?_⟩
+    intro x0 hx0
+    simp only [List.mem_cons] at hx0
+    rcases hx0 with rfl | hx0
+    · exact i1
+    · exact i2 x0 hx0
+
+/-- the requests before `x` in a chained run are determined by `x.req` -/
+def prefixes : Nat → Nat → List Msg → List (List Msg)
+  | _, 0, _ => []
+  | n0, cnt + 1, r => r.take (n0 + 1) :: prefixes (n0 + 2) cnt r
+
+theorem chained_reqs : ∀ (pre : List (Step Ev)) (h : List Msg) (x : Step Ev) (post : List (Step Ev)),
+    ChainedFrom h (pre ++ x :: post) → pre.map (·.req) = prefixes h.length pre.length x.req := by
+  intro pre
+  induction pre with
+  | nil => intro h x post _; rfl
+  | cons y pre ih =>
+    intro h x post hc
+    have hp := (chained_prefix (y :: pre) h x post hc).2 y (by simp)
+    obtain ⟨⟨m, hm⟩, hc'⟩ := hc
+    have i := ih y.hist x post hc'
+    have hyr : y.req <+: x.req := List.IsPrefix.trans (show y.req <+: y.hist from ⟨[y.reply], rfl⟩) hp
+    have e1 : y.req = x.req.take (h.length + 1) := by
+      have := List.prefix_iff_eq_take.1 hyr
+      rw [this]; simp [hm]
+    have e2 : y.hist.length = h.length + 2 := by simp [Step.hist, hm]
+    simp only [List.map_cons, List.length_cons, prefixes]
+    rw [i, e2, ← e1]
+
+theorem chained_find : ∀ (pre : List (Step Ev)) (h : List Msg) (x : Step Ev) (post : List (Step Ev)) (a : Nat),
+    ChainedFrom h (pre ++ x :: post) → a < pre.length →
+    ∃ p1 x0 p2, pre = p1 ++ x0 :: p2 ∧ p1.length = a := by
+  intro pre h x post a _ ha
+  refine ⟨pre.take a, pre[a], pre.drop (a + 1), ?_, ?_⟩
+  · simp
+  · simp; omega
+
+theorem chained_sub : ∀ (p1 : List (Step Ev)) (h : List Msg) (rest : List (Step Ev)),
+    ChainedFrom h (p1 ++ rest) → ∃ h', ChainedFrom h' rest := by
+  intro p1
+  induction p1 with
+  | nil => intro h rest hc; exact ⟨h, hc⟩
+  | cons y p1 ih => intro h rest hc; exact ih y.hist rest hc.2
+
+/-- a chained isolated run is determined, up to and including a step, by that step's history -/
+theorem chained_determined (key : List Msg → K) (conv : Bool → Msg → List Ev) (turn : List Ev → Msg × List Ev)
+    (R R' : List (List Msg)) (pre pre' : List (Step Ev)) (x x' : Step Ev) (post post' : List (Step Ev))
+    (hS : runS key conv turn [] R = pre ++ x :: post) (hS' : runS key conv turn [] R' = pre' ++ x' :: post')
+    (hc : ChainedFrom [] (pre ++ x :: post)) (hc' : ChainedFrom [] (pre' ++ x' :: post'))
+    (hh : x.hist = x'.hist) : x = x' := by
+  have hreq : x.req = x'.req ∧ x.reply = x'.reply := by
+    have := hh
+    simp only [Step.hist] at this
+    have hl : x.req.length = x'.req.length := by
+      have := congrArg List.length this
+      simp at this; exact this
+    have := List.append_inj this hl
+    exact ⟨this.1, by simpa using this.2⟩
+  have l1 := chained_req_length pre [] x post hc
+  have l2 := chained_req_length pre' [] x' post' hc'
+  have hlen : pre.length = pre'.length := by
+    have := congrArg List.length hreq.1
+    simp at l1 l2
+    omega
+  have q1 := chained_reqs pre [] x post hc
+  have q2 := chained_reqs pre' [] x' post' hc'
+  -- the request lists agree up to this step
+  have r1 := runS_reqs key conv turn R []
+  have r2 := runS_reqs key conv turn R' []
+  rw [hS] at r1
+  rw [hS'] at r2
+  have tk : ∀ (p q : List (Step Ev)) (y : Step Ev), (p ++ y :: q).take (p.length + 1) = p ++ [y] := by
+    intro p q y
+    rw [List.take_append]
+    simp
+    exact List.take_of_length_le (by omega)
+  have t1 : (pre ++ x :: post).take (pre.length + 1) = pre ++ [x] := tk _ _ _
+  have t2 : (pre' ++ x' :: post').take (pre.length + 1) = pre' ++ [x'] := by
+    rw [hlen]; exact tk _ _ _
+  have hR1 : R.take (pre.length + 1) = prefixes 0 pre.length x.req ++ [x.req] := by
+    rw [← r1, ← List.map_take, t1]; simp [q1]
+  have hR2 : R'.take (pre.length + 1) = prefixes 0 pre.length x.req ++ [x.req] := by
+    rw [← r2, ← List.map_take, t2]; simp [q2, hlen, hreq.1]
+  have k1 := runS_take key conv turn R [] (pre.length + 1)
+  have k2 := runS_take key conv turn R' [] (pre.length + 1)
+  rw [hS, t1, hR1] at k1
+  rw [hS', t2, hR2] at k2
+  have := k1.trans k2.symm
+  have := List.append_inj' this (by simp)
+  simpa using this.2
+
+/-- every conversation of the schedule is turn-by-turn in its isolated replay -/
+def TurnByTurn (L : Nat → List (Nat × Step Ev)) : Prop := ∀ c, ChainedFrom [] ((L c).map (·.2))
+
+theorem compatible_of_turn_by_turn (key : List Msg → K) (conv : Bool → Msg → List Ev) (turn : List Ev → Msg × List Ev)
+    (s : List (Nat × List Msg))
+    (htt : TurnByTurn (fun c => runT key conv turn [] (ofConv c s))) :
+    Compatible (fun c => runT key conv turn [] (ofConv c s)) := by
+  intro c c' _ x' hx' pre x post hdec hp
+  obtain ⟨pre', post', hdec'⟩ := List.append_of_mem hx'
+  simp only at hdec hdec'
+  have hc := htt c
+  have hc' := htt c'
+  simp only [hdec, hdec', List.map_append, List.map_cons] at hc hc'
+  have l1 := chained_req_length _ [] _ _ hc
+  have l2 := chained_req_length _ [] _ _ hc'
+  simp only [List.length_map, List.length_nil, Nat.zero_add] at l1 l2
+  obtain ⟨p, hp0, hp1, hp2⟩ := hp
+  have hlp : x'.2.hist.length = p := by rw [← hp2]; simp; omega
+  have hhl : x'.2.hist.length = 2 * pre'.length + 2 := by simp [Step.hist, l2]
+  have ha : pre'.length < pre.length := by omega
+  -- own step with the same index
+  have hsplit : pre = pre.take pre'.length ++ pre[pre'.length] :: pre.drop (pre'.length + 1) := by simp
+  have hx0 : ∀ y ∈ pre, y.2.hist.length = x'.2.hist.length → y.2.hist = x'.2.hist := by
+    intro y hy hl
+    have hpre := (chained_prefix _ [] _ _ hc).2 y.2 (List.mem_map_of_mem hy)
+    have e1 := List.prefix_iff_eq_take.1 hpre
+    rw [e1, hl, hlp, hp2]
+  constructor
+  · refine ⟨pre[pre'.length], List.getElem_mem _, ?_⟩
+    apply hx0 _ (List.getElem_mem _)
+    have hc2 := hc
+    rw [hsplit] at hc2
+    simp only [List.map_append, List.map_cons, List.append_assoc, List.cons_append] at hc2
+    have := chained_req_length _ [] _ _ hc2
+    simp only [List.length_map, List.length_take, List.length_nil, Nat.zero_add] at this
+    rw [hhl]
+    simp [Step.hist, this]
+    omega
+  · intro y hy hyh
+    obtain ⟨r1, r2, hr⟩ := List.append_of_mem hy
+    have hS := runT_steps key conv turn (ofConv c s) []
+    have hS' := runT_steps key conv turn (ofConv c' s) []
+    rw [hdec, hr] at hS
+    rw [hdec'] at hS'
+    simp only [List.map_append, List.map_cons, List.append_assoc, List.cons_append] at hS hS'
+    have hcy := hc
+    rw [hr] at hcy
+    simp only [List.map_append, List.map_cons, List.append_assoc, List.cons_append] at hcy
+    have := chained_determined key conv turn _ _ _ _ _ _ _ _ hS.symm hS'.symm hcy hc' hyh
+    rw [this]
+
+end
+
 namespace Params
 
 section
@@ -583,6 +803,203 @@ theorem nested_general (tasks : Nat → List (Nat × V)) (hnd : ∀ t, ((tasks t
         · exact hn
 
 end
+
+/-- abstraction of the LLM object: the value a call would run with (`None` when the parameter is unknown) -/
+def absStore (σ : Store) : Nat → PVal := fun n => (σ.get n).getD none
+
+def Present (σ : Store) (n : Nat) : Prop := (σ.get n).isSome = true
+
+theorem enter1_present (σ : Store) (orig : List (Nat × PVal)) (p : Nat × PVal) (hp : Present σ p.1) :
+    (∀ m, absStore (enter1 (σ, orig) p).1 m = upd (absStore σ) p.1 p.2 m) ∧
+    (enter1 (σ, orig) p).2 = orig ++ [(p.1, absStore σ p.1)] ∧
+    (∀ m, Present (enter1 (σ, orig) p).1 m ↔ Present σ m) := by
+  unfold Present at *
+  simp only [enter1]
+  cases ha : σ.attr p.1 with
+  | some old =>
+    simp only
+    refine ⟨?_, ?_, ?_⟩
+    · intro m
+      by_cases hm : m = p.1
+      · subst hm; simp [absStore, Store.get, upd]
+      · simp [absStore, Store.get, upd, hm]
+    · simp [absStore, Store.get, ha]
+    · intro m
+      by_cases hm : m = p.1
+      · subst hm; simp [Store.get, upd, ha]
+      · simp [Store.get, upd, hm]
+  | none =>
+    cases hk : σ.kw with
+    | none => simp [Store.get, ha, hk] at hp
+    | some kw =>
+      cases hv : kw p.1 with
+      | none => simp [Store.get, ha, hk, hv] at hp
+      | some w =>
+        simp only
+        refine ⟨?_, ?_, ?_⟩
+        · intro m
+          by_cases hm : m = p.1
+          · subst hm; simp [absStore, Store.get, upd, ha]
+          · simp [absStore, Store.get, upd, hm, hk]
+        · simp [absStore, Store.get, ha, hk, hv]
+        · intro m
+          by_cases hm : m = p.1
+          · subst hm; simp [Store.get, upd, ha, hk, hv]
+          · simp [Store.get, upd, hm, hk]
+
+theorem enter_refines : ∀ (alt : List (Nat × PVal)) (σ : Store) (orig : List (Nat × PVal)) (a : Nat → PVal),
+    (∀ p ∈ alt, Present σ p.1) → (∀ m, absStore σ m = a m) →
+    (∀ m, absStore (alt.foldl enter1 (σ, orig)).1 m
+        = (alt.foldl (fun acc p => (upd acc.1 p.1 p.2, acc.2 ++ [(p.1, acc.1 p.1)])) (a, orig)).1 m) ∧
+    (alt.foldl enter1 (σ, orig)).2
+        = (alt.foldl (fun acc p => (upd acc.1 p.1 p.2, acc.2 ++ [(p.1, acc.1 p.1)])) (a, orig)).2 ∧
+    (∀ m, Present (alt.foldl enter1 (σ, orig)).1 m ↔ Present σ m) := by
+  intro alt
+  induction alt with
+  | nil => intro σ orig a _ h; exact ⟨h, rfl, fun _ => Iff.rfl⟩
+  | cons p r ih =>
+    intro σ orig a hp ha
+    simp only [List.foldl_cons]
+    obtain ⟨e1, e2, e3⟩ := enter1_present σ orig p (hp p (by simp))
+    have hσ' : enter1 (σ, orig) p = ((enter1 (σ, orig) p).1, (enter1 (σ, orig) p).2) := rfl
+    rw [ha p.1] at e2
+    rw [hσ', e2]
+    have := ih (enter1 (σ, orig) p).1 (orig ++ [(p.1, a p.1)]) (upd a p.1 p.2)
+      (fun q hq => (e3 q.1).2 (hp q (by simp [hq])))
+      (fun m => by rw [e1 m]; simp [upd, ha])
+    obtain ⟨i1, i2, i3⟩ := this
+    exact ⟨i1, i2, fun m => (i3 m).trans (e3 m)⟩
+
+theorem exit1_present (σ : Store) (p : Nat × PVal) (hp : Present σ p.1) :
+    (∀ m, absStore (exit1 σ p) m = upd (absStore σ) p.1 p.2 m) ∧ (∀ m, Present (exit1 σ p) m ↔ Present σ m) := by
+  unfold Present at *
+  cases ha : σ.attr p.1 with
+  | some old =>
+    refine ⟨?_, ?_⟩
+    · intro m
+      by_cases hm : m = p.1
+      · subst hm; simp [exit1, ha, absStore, Store.get, upd]
+      · simp [exit1, ha, absStore, Store.get, upd, hm]
+    · intro m
+      by_cases hm : m = p.1
+      · subst hm; simp [exit1, ha, Store.get, upd]
+      · simp [exit1, ha, Store.get, upd, hm]
+  | none =>
+    cases hk : σ.kw with
+    | none => simp [Store.get, ha, hk] at hp
+    | some kw =>
+      cases hv : kw p.1 with
+      | none => simp [Store.get, ha, hk, hv] at hp
+      | some w =>
+        refine ⟨?_, ?_⟩
+        · intro m
+          by_cases hm : m = p.1
+          · subst hm; simp [exit1, ha, hk, hv, absStore, Store.get, upd]
+          · simp [exit1, ha, hk, hv, absStore, Store.get, upd, hm]
+        · intro m
+          by_cases hm : m = p.1
+          · subst hm; simp [exit1, ha, hk, hv, Store.get, upd]
+          · simp [exit1, ha, hk, hv, Store.get, upd, hm]
+
+theorem exit_refines : ∀ (orig : List (Nat × PVal)) (σ : Store) (a : Nat → PVal),
+    (∀ p ∈ orig, Present σ p.1) → (∀ m, absStore σ m = a m) →
+    (∀ m, absStore (exit orig σ) m = setAll a orig m) ∧ (∀ m, Present (exit orig σ) m ↔ Present σ m) := by
+  intro orig
+  induction orig with
+  | nil => intro σ a _ h; exact ⟨h, fun _ => Iff.rfl⟩
+  | cons p r ih =>
+    intro σ a hp ha
+    simp only [exit, setAll, List.foldl_cons]
+    obtain ⟨e1, e3⟩ := exit1_present σ p (hp p (by simp))
+    have := ih (exit1 σ p) (upd a p.1 p.2)
+      (fun q hq => (e3 q.1).2 (hp q (by simp [hq])))
+      (fun m => by rw [e1 m]; simp [upd, ha])
+    obtain ⟨i1, i3⟩ := this
+    exact ⟨i1, fun m => (i3 m).trans (e3 m)⟩
+
+
+/-! ### the concrete system (real `LLMParams` objects on one shared LLM object) refines the abstract one -/
+
+theorem enterA_names {V : Type} (alt : List (Nat × V)) : ∀ (σ : Nat → V) (o : List (Nat × V)) (q : Nat × V),
+    q ∈ (alt.foldl (fun acc p => (upd acc.1 p.1 p.2, acc.2 ++ [(p.1, acc.1 p.1)])) (σ, o)).2 →
+    q ∈ o ∨ ∃ p ∈ alt, p.1 = q.1 := by
+  induction alt with
+  | nil => intro σ o q h; exact Or.inl h
+  | cons p r ih =>
+    intro σ o q h
+    simp only [List.foldl_cons] at h
+    rcases ih _ _ q h with h | ⟨p', hp', e⟩
+    · simp only [List.mem_append, List.mem_singleton] at h
+      rcases h with h | h
+      · exact Or.inl h
+      · exact Or.inr ⟨p, by simp, by rw [h]⟩
+    · exact Or.inr ⟨p', by simp [hp'], e⟩
+
+/-- the two systems are in step -/
+structure Rel (tasks : Nat → List (Nat × PVal)) (σ0 : Store) (c : CSys) (a : Sys PVal) : Prop where
+  store : ∀ m, absStore c.store m = a.store m
+  saved : ∀ t, c.saved t = a.saved t
+  calls : c.calls = a.calls
+  present : ∀ m, Present c.store m ↔ Present σ0 m
+  names : ∀ t q, q ∈ a.saved t → ∃ p ∈ tasks t, p.1 = q.1
+
+theorem cstep_refines (tasks : Nat → List (Nat × PVal)) (σ0 : Store)
+    (hp : ∀ t, ∀ p ∈ tasks t, Present σ0 p.1) (c : CSys) (a : Sys PVal) (h : Rel tasks σ0 c a) (ta : Nat × Act) :
+    Rel tasks σ0 (cstep tasks c ta) (step tasks a ta) := by
+  obtain ⟨t, act⟩ := ta
+  cases act with
+  | enter =>
+    obtain ⟨e1, e2, e3⟩ := enter_refines (tasks t) c.store [] a.store
+      (fun p hp' => (h.present p.1).2 (hp t p hp')) h.store
+    refine ⟨?_, ?_, ?_, ?_, ?_⟩
+    · intro m; simpa [cstep, step, enter, enterA] using e1 m
+    · intro t'
+      by_cases ht : t' = t
+      · subst ht; simpa [cstep, step, enter, enterA, upd] using e2
+      · simp [cstep, step, upd, ht, h.saved t']
+    · simpa [cstep, step] using h.calls
+    · intro m; exact Iff.trans (by simpa [cstep, enter] using e3 m) (h.present m)
+    · intro t' q hq
+      by_cases ht : t' = t
+      · subst ht
+        simp only [step, enterA, upd, if_true] at hq
+        rcases enterA_names (tasks t') a.store [] q hq with h' | h'
+        · simp at h'
+        · exact h'
+      · simp only [step, upd, ht, if_false] at hq
+        exact h.names t' q hq
+  | call =>
+    refine ⟨h.store, h.saved, ?_, h.present, h.names⟩
+    have : (tasks t).map (fun p => (p.1, (c.store.get p.1).getD none)) = (tasks t).map (fun p => (p.1, a.store p.1)) := by
+      apply List.map_congr_left
+      intro p _
+      have := h.store p.1
+      simp only [absStore] at this
+      rw [this]
+    simp only [cstep, step, h.calls, this]
+  | exit =>
+    have hpres : ∀ p ∈ c.saved t, Present c.store p.1 := by
+      intro p hp'
+      rw [h.saved t] at hp'
+      obtain ⟨p', hp'', e⟩ := h.names t p hp'
+      rw [← e]
+      exact (h.present p'.1).2 (hp t p' hp'')
+    obtain ⟨e1, e3⟩ := exit_refines (c.saved t) c.store a.store hpres h.store
+    refine ⟨?_, h.saved, h.calls, ?_, h.names⟩
+    · intro m; simpa [cstep, step, h.saved t] using e1 m
+    · intro m; exact Iff.trans (by simpa [cstep] using e3 m) (h.present m)
+
+theorem runSchedC_refines (tasks : Nat → List (Nat × PVal)) (σ0 : Store)
+    (hp : ∀ t, ∀ p ∈ tasks t, Present σ0 p.1) : ∀ (sched : List (Nat × Act)) (c : CSys) (a : Sys PVal),
+    Rel tasks σ0 c a → Rel tasks σ0 (runSchedC tasks c sched) (runSched tasks a sched) := by
+  intro sched
+  induction sched with
+  | nil => intro c a h; exact h
+  | cons x r ih =>
+    intro c a h
+    simp only [runSchedC, runSched, List.foldl_cons]
+    exact ih _ _ (cstep_refines tasks σ0 hp c a h x)
+
 
 end Params
 end NemoVerif.Isolation
